@@ -1012,9 +1012,18 @@ def in_toto_record_stop(
     # so we glob for preliminary link files
     else:
         unfinished_fn_glob = UNFINISHED_FILENAME_FORMAT_GLOB.format(
-            step_name=step_name, pattern="*"
+            step_name=glob.escape(step_name), pattern="*"
         )
-        unfinished_fn_list = glob.glob(unfinished_fn_glob)
+        # The keyid part of the file name contains no dot: a preliminary link of
+        # another step, whose name is this step's name followed by a dot and
+        # more, must not be mistaken for a preliminary link of this step.
+        keyid_start = len(".{}.".format(step_name))
+        keyid_end = -len(".link-unfinished")
+        unfinished_fn_list = [
+            unfinished_fn
+            for unfinished_fn in glob.glob(unfinished_fn_glob)
+            if "." not in unfinished_fn[keyid_start:keyid_end]
+        ]
 
         if not unfinished_fn_list:
             raise in_toto.exceptions.LinkNotFoundError(
